@@ -103,6 +103,8 @@ def make(K, second_term=False, reach=False, mode="lockstep", real_fetcher=False)
                 rnd, after_p = (0 if j == 0 else ((j - 1) // 2) * 2), False
             return rnd > f or (rnd == f and after_p)
         close_at = ex.choice("close_at", KT + 1) if mode == "lockstep" else KT  # KT = never closed; c: the primary delivers samples 0..c-1 and is then closed
+        # closed within round c (in the order given by fb_first) or between rounds c-1 and c, before any sample of round c is sent
+        close_early = ex.flag("closed_between_rounds") if (mode == "lockstep" and close_at < KT) else False
         pv = [ex.real(f"p{k}") for k in range(KT)]
         fv = [ex.real(f"f{k}") for k in range(KT)] + [0.0, 0.0]
         sv = [ex.real(f"s{k}") for k in range(KT)] if second_term else None
@@ -124,7 +126,7 @@ def make(K, second_term=False, reach=False, mode="lockstep", real_fetcher=False)
             async def send_p(k):
                 if k < close_at:
                     await ps.send(Sample(TS + k * PER, Power.from_watts(pv[k]) if pvalid[k] else None))
-                elif k == close_at:
+                elif k == close_at and not close_early:
                     await pc.close()
 
             async def send_f(k):
@@ -152,6 +154,10 @@ def make(K, second_term=False, reach=False, mode="lockstep", real_fetcher=False)
                     await send_f(1)
                     await asyncio.sleep(0.1)
                 for k in range(KT):
+                    if close_early and k == close_at:
+                        # the primary stream is closed BETWEEN two rounds: the engine handles the closure before any sample of round k exists
+                        await pc.close()
+                        await asyncio.sleep(0.05)
                     await send_s(k)
                     if mode == "fb_ahead":
                         await send_f(k + 1)
